@@ -409,7 +409,7 @@ impl<'a, V: VariationInfo> ValidationCtx<'a, V> {
                     }
                     Kind::UnicodeRangeKw => {
                         for number in item.values() {
-                            if !(0..128).contains(&number.parse_signed()) {
+                            if !matches!(number.parse_unsigned(), Some(0..=127)) {
                                 self.error(
                                     number.range(),
                                     "expected value in unicode character range 0..=127",
@@ -419,10 +419,10 @@ impl<'a, V: VariationInfo> ValidationCtx<'a, V> {
                     }
                     Kind::CodePageRangeKw => {
                         for number in item.values() {
-                            if super::tables::CodePageRange::bit_for_code_page(
-                                number.parse_signed() as u16,
-                            )
-                            .is_none()
+                            if number
+                                .parse_unsigned()
+                                .and_then(super::tables::CodePageRange::bit_for_code_page)
+                                .is_none()
                             {
                                 self.error(number.range(), "not a valid code page");
                             }
@@ -799,7 +799,9 @@ impl<'a, V: VariationInfo> ValidationCtx<'a, V> {
                 "size feature must include a 'parameters' statement",
             ),
             Some(param) => {
-                if param.subfamily().parse_signed() == 0
+                if param.subfamily().parse_unsigned().is_none() {
+                    self.error(param.subfamily().range(), "expected positive number");
+                } else if param.subfamily().parse_unsigned() == Some(0)
                     && param.range_start().map(|x| x.parse() as i32).unwrap_or(0) == 0
                     && param.range_end().map(|x| x.parse() as i32).unwrap_or(0) == 0
                     && menu_name_count != 0
